@@ -9,7 +9,7 @@ run_one() {
   if ! git -C $WT apply $P 2>/dev/null; then echo "$N: patch does not apply"; git -C /repo worktree remove --force $WT; return; fi
   res=""
   for p in C01 C02 C03 C04 C05 C06 C07 C08 C09 C10 C11 C12 C13 C14 C15 C16 C17 C18 C19 C20; do
-    out=$(cd /verif && BSV_CACHE_KEEP=40 BSV_REPO=$WT BSV_EVIDENCE_DIR=$WT/.evidence python3 bsverify.py --property $p --tier quick 2>&1); rc=$?
+    out=$(cd /verif && BSV_CACHE_KEEP=300 BSV_REPO=$WT BSV_EVIDENCE_DIR=$WT/.evidence python3 bsverify.py --property $p --tier quick 2>&1); rc=$?
     if [ $rc -ne 0 ]; then res="$res $p(rc=$rc: $(echo "$out" | grep -E '^  violated|ANALYSIS-BROKEN' | head -2 | cut -c1-220 | tr '\n' ' '))"; fi
   done
   git -C /repo worktree remove --force $WT >/dev/null 2>&1
